@@ -11,3 +11,15 @@ open Amoco.Rv.Props
 #print axioms rv_imm_U32
 #print axioms rv_fields
 #print axioms rv_generated_eq_expected
+open Amoco.Flags.Props
+#print axioms addWithCarry_result
+#print axioms addWithCarry_carry
+#print axioms addWithCarry_overflow
+#print axioms subWithBorrow_carry
+#print axioms subWithBorrow_overflow
+#print axioms parity8_is_even_parity
+#print axioms parity8_table_6996_is_odd_parity
+#print axioms halfcarry_is_AF
+#print axioms halfborrow_is_AF
+#print axioms condition_codes_after_cmp
+#print axioms r32_destination_zero_extends
